@@ -114,8 +114,9 @@ def main():
 
     out = dict(shard=shard, evaluations=0, sigs=[], monitors=Counter(), stats={}, tags=Counter(),
                violations=[], known_hits=Counter(), witness={}, timeouts=0, harness_errors=[],
-               samples=[], skipped_for_budget=0, trivial=0)
+               samples=[], skipped_for_budget=0, trivial=0, units=0, exhaustive_units=0)
     sigs = set()
+    count_units = bool(getattr(prop, 'COUNT_UNITS', False))
 
     keys = []
     fixed = prop.fixed_cases(tier) if hasattr(prop, 'fixed_cases') else []
@@ -156,7 +157,11 @@ def main():
         out['monitors'].update(ctx.monitors)
         out['tags'].update(ctx.tags)
         merge_stats(out['stats'], ctx.stats)
-        if ctx.trivial:
+        if count_units:
+            out['units'] += ctx.units
+            out['exhaustive_units'] += ctx.exhaustive_units
+            sigs.update(ctx.unit_sigs)
+        elif ctx.trivial:
             out['trivial'] += 1
         else:
             sigs.add(digest(case))
